@@ -1427,6 +1427,8 @@ class FnTranslator:
         for f in self.absfns.values():
             if f["lean"] == lean:
                 tys = [self.ty_of_text(a).lean() for a in f["args"]] + [self.ty_of_text(f["ret"]).lean()]
+                if f.get("monadic"):           # (genbits) an abstract function that may panic
+                    tys[-1] = "Res " + paren_ty(tys[-1])
                 return " → ".join(paren_ty(t) if "→" in t else t for t in tys)
         raise KeyError(lean)
 
@@ -2964,6 +2966,33 @@ unit(name="SrcRankSelect", props="property C17", file="src/data_structures/rank_
                 dict(name="RankSelect::rank_0", lean="rank0", header="pub fn rank_0(&self, i: u64) -> Option<u64>",
                      self_fields=RANKSELECT_FIELDS, params=[("i", "u64")], ret="Option<u64>",
                      theorem="RbV.Thm.GenSrcRankSelect.rank0_eq_model")])
+
+
+# (genbits) wavelet matrix queries.  `RankSelect` is an abstract type whose `rank_0` / `rank_1` are abstract *monadic*
+# functions (they may panic; the composition theorem instantiates them with the translated `RankSelect::rank_0/1`);
+# the `const DNA2INT` table is a parameter (its value is extracted separately into Gen/Dna2Int.lean).
+WAVELET_FIELDS = [("width", "usize"), ("height", "usize"), ("zeros", "Vec<u64>"), ("levels", "Vec<RankSelect>")]
+
+unit(name="SrcWavelet", props="property C17", file="src/data_structures/wavelet_matrix.rs",
+     imports=["RbV.Basic.RsSemBits"], generics={"RankSelect": "ρ"},
+     abstract_fns={"RankSelect.rank_0": dict(lean="rank0", args=["RankSelect", "u64"], ret="Option<u64>", monadic=True),
+                   "RankSelect.rank_1": dict(lean="rank1", args=["RankSelect", "u64"], ret="Option<u64>", monadic=True)},
+     self_calls={"check_overflow": dict(lean="SrcWavelet.checkOverflow", fields=[f for f, _ in WAVELET_FIELDS],
+                                        args=["u64"], ret="bool", abs=True),
+                 "prank": dict(lean="SrcWavelet.prank", fields=[f for f, _ in WAVELET_FIELDS],
+                               args=["usize", "u64", "u8"], ret="u64", abs=True)},
+     functions=[dict(name="WaveletMatrix::check_overflow", lean="checkOverflow",
+                     header="fn check_overflow(&self, p: u64) -> bool",
+                     self_fields=WAVELET_FIELDS, params=[("p", "u64")], ret="bool",
+                     theorem="RbV.Thm.GenSrcWavelet.checkOverflow_eq_model"),
+                dict(name="WaveletMatrix::prank", lean="prank",
+                     header="fn prank(&self, level: usize, p: u64, val: u8) -> u64",
+                     self_fields=WAVELET_FIELDS, params=[("level", "usize"), ("p", "u64"), ("val", "u8")], ret="u64",
+                     theorem="RbV.Thm.GenSrcWavelet.prank_eq_model"),
+                dict(name="WaveletMatrix::rank", lean="rank", header="pub fn rank(&self, val: u8, p: u64) -> u64",
+                     self_fields=WAVELET_FIELDS, params=[("DNA2INT", "[u8; 128]"), ("val", "u8"), ("p", "u64")],
+                     ret="u64", locals={"spos": "u64"},
+                     theorem="RbV.Thm.GenSrcWavelet.rank_eq_model")])
 
 
 unit(name="SrcBwt", props="property C04", file="src/data_structures/bwt.rs",
